@@ -138,6 +138,14 @@ def run(ck):
         c03_e2e = None
     if c03_e2e:
         c03_e2e.run(ck)
+    # (4) allocation units: model of bitfields_to_allocation_units vs the units of real runs
+    vlib.coq_check_properties(ck, "theories/C03/AllocProperties.v")
+    import c03_alloc, tempfile, shutil
+    tmp = tempfile.mkdtemp(prefix="c03a_", dir=vlib.CACHE)
+    try:
+        c03_alloc.run(ck, vlib.build_cli(), tmp, quick)
+    finally:
+        shutil.rmtree(tmp, ignore_errors=True)
     if not quick:
         import c03_miri
         c03_miri.run(ck, driver)
